@@ -72,74 +72,28 @@ theorem round_tail (prof : Profile) (tm : Mode) (q : Int) (r d : Nat) (mode : Op
 theorem i128_div_rounded_eq (prof : Profile) (tm : Mode) (a b : Int) (mode : Option Mode) (ha : fitsI128 a = true) :
     Gen.K.i128_div_rounded prof tm a b mode = i128DivRounded prof tm a b mode := by
   unfold Gen.K.i128_div_rounded i128DivRounded
-  have key : ∀ a' b' : Int, fitsI128 a' = true →
-      (do let t3 ← Gen.K.i128_div_mod_floor prof a' b'
-          let (quot, rem) := t3
-          let t4 ← Gen.K.round_quot prof tm quot (IntTy.u128.cast rem).toNat (IntTy.u128.cast b').toNat mode
-          match t4 with
-          | some quot => pure quot
-          | none => Outcome.panic PanicKind.unwrap) =
-      (do let (quot, rem) ← i128DivModFloor prof a' b'
-          match roundQuot tm quot (IntTy.u128.cast rem).toNat (IntTy.u128.cast b').toNat mode with
-          | some q => pure q
-          | none => Outcome.panic PanicKind.unwrap : Outcome Int) := by
-    intro a' b' ha'
-    rw [i128_div_mod_floor_eq]
-    cases hdm : i128DivModFloor prof a' b' with
-    | panic k => rfl
-    | ok qr =>
-      obtain ⟨q, r⟩ := qr
-      have hq := divModFloor_fits prof a' b' q r ha' hdm
-      simp only [bind_ok', round_tail prof tm q _ _ mode hq]
-  by_cases hb : b < 0
-  · simp only [hb, decide_true, if_true]
-    cases hn1 : negI128 prof a with
-    | panic k => rfl
-    | ok a' =>
-      cases hn2 : negI128 prof b with
-      | panic k => rfl
-      | ok b' =>
-        simp only [bind_ok', pure_eq']
-        exact key a' b' (plainI128_fits prof _ _ hn1)
-  · simp only [hb, decide_false, Bool.false_eq_true, if_false, bind_ok', pure_eq']
-    exact key a b ha
+  rw [i128_div_mod_floor_eq]
+  cases hdm : i128DivModFloor prof a b with
+  | panic k => rfl
+  | ok qr =>
+    obtain ⟨q, r⟩ := qr
+    have hq := divModFloor_fits prof a b q r ha hdm
+    simp only [bind_ok', round_tail prof tm q _ _ mode hq]
+    cases roundQuot tm q r.natAbs b.natAbs mode <;> rfl
 
 theorem i128_shifted_div_rounded_eq (prof : Profile) (tm : Mode) (a : Int) (p : Nat) (b : Int) (mode : Option Mode)
     (hfit : ∀ a' b' q r, i128ShiftedDivModFloor prof a' p b' = .ok (some (q, r)) → fitsI128 q = true) :
     Gen.K.i128_shifted_div_rounded prof tm a p b mode = i128ShiftedDivRounded prof tm a p b mode := by
   unfold Gen.K.i128_shifted_div_rounded i128ShiftedDivRounded
-  have key : ∀ a' b' : Int,
-      (do let t3 ← i128ShiftedDivModFloor prof a' p b'
-          let some t4 := t3 | pure none
-          let (quot, rem) := t4
-          let t5 ← Gen.K.round_quot prof tm quot (IntTy.u128.cast rem).toNat (IntTy.u128.cast b').toNat mode
-          pure t5) =
-      (do match ← i128ShiftedDivModFloor prof a' p b' with
-          | none => pure none
-          | some (quot, rem) =>
-            pure (roundQuot tm quot (IntTy.u128.cast rem).toNat (IntTy.u128.cast b').toNat mode) : Outcome (Option Int)) := by
-    intro a' b'
-    cases hdm : i128ShiftedDivModFloor prof a' p b' with
-    | panic k => rfl
-    | ok o =>
-      cases o with
-      | none => rfl
-      | some qr =>
-        obtain ⟨q, r⟩ := qr
-        have hq := hfit a' b' q r hdm
-        simp only [bind_ok', round_tail prof tm q _ _ mode hq, pure_eq']
-  by_cases hb : b < 0
-  · simp only [hb, decide_true, if_true]
-    cases hn1 : negI128 prof a with
-    | panic k => rfl
-    | ok a' =>
-      cases hn2 : negI128 prof b with
-      | panic k => rfl
-      | ok b' =>
-        simp only [bind_ok', pure_eq']
-        exact key a' b'
-  · simp only [hb, decide_false, Bool.false_eq_true, if_false, bind_ok', pure_eq']
-    exact key a b
+  cases hdm : i128ShiftedDivModFloor prof a p b with
+  | panic k => rfl
+  | ok o =>
+    cases o with
+    | none => rfl
+    | some qr =>
+      obtain ⟨q, r⟩ := qr
+      have hq := hfit a b q r hdm
+      simp only [bind_ok', round_tail prof tm q _ _ mode hq, pure_eq']
 
 theorem i128_mul_div_ten_pow_rounded_eq (prof : Profile) (tm : Mode) (x y : Int) (p : Nat) (mode : Option Mode)
     (hfit : ∀ d q r, i256DivModFloor prof x y d = .ok (some (q, r)) → fitsI128 q = true) :
